@@ -471,6 +471,7 @@ func runSort(c *core.Ctx) {
 		return
 	}
 	n := 0
+	done := map[*ssa.Function]bool{}
 	for _, fn := range serverFuncs(c) {
 		var sortCall *ssa.Call
 		an.Calls(fn, func(call ssa.CallInstruction) {
@@ -484,6 +485,7 @@ func runSort(c *core.Ctx) {
 			continue
 		}
 		n++
+		done[fn] = true
 		key := "order:" + kn(c.P.FuncName(fn))
 		root, p := accessPath(an.Strip(sortCall.Call.Args[0]))
 		var problems []string
@@ -614,6 +616,7 @@ func runSort(c *core.Ctx) {
 			})
 		}
 		n++
+		done[fn] = true
 		key := "order:" + kn(c.P.FuncName(fn))
 		var problems []string
 		if !okHelper || nret == 0 {
@@ -629,6 +632,121 @@ func runSort(c *core.Ctx) {
 			c.Fail(key, helperCall.Pos(), "%s", strings.Join(problems, "; "))
 		} else {
 			c.Pass(key, helperCall.Pos(), "fill → sort (in %s) → truncate → marshal", c.P.FuncName(h))
+		}
+	}
+	// the list may be kept in a local variable and only put into the TagList that is marshalled afterwards: what is
+	// stored in Tags derives from the sorted value through truncations only, the sorted value itself was not
+	// truncated, and the sort precedes the marshalling on every path
+	for _, fn := range serverFuncs(c) {
+		if done[fn] {
+			continue
+		}
+		var tlAlloc *ssa.Alloc
+		an.Instrs(fn, func(in ssa.Instruction) {
+			if al, ok := in.(*ssa.Alloc); ok && isNamedType(an.Deref(al.Type()), r.TypesPath, "TagList") {
+				tlAlloc = al
+			}
+		})
+		if tlAlloc == nil {
+			continue
+		}
+		var sortCall *ssa.Call
+		an.Calls(fn, func(call ssa.CallInstruction) {
+			if cc, ok := call.(*ssa.Call); ok && (an.IsFunc(call, "sort", "Strings") || an.IsFunc(call, "slices", "Sort")) {
+				if _, p := accessPath(an.Strip(cc.Call.Args[0])); len(p) == 0 {
+					sortCall = cc
+				}
+			}
+		})
+		if sortCall == nil {
+			continue
+		}
+		sorted := an.Strip(sortCall.Call.Args[0])
+		var problems []string
+		var tagStores []*ssa.Store
+		var marshal *ssa.Call
+		an.Instrs(fn, func(in ssa.Instruction) {
+			switch x := in.(type) {
+			case *ssa.Store:
+				if r2, p2 := accessPath(x.Addr); r2 == ssa.Value(tlAlloc) && len(p2) == 1 && p2[0] == "Tags" {
+					tagStores = append(tagStores, x)
+				}
+			case *ssa.Call:
+				if an.IsFunc(x, "encoding/json", "Marshal") {
+					if u, ok := an.Strip(x.Call.Args[0]).(*ssa.UnOp); ok && u.X == ssa.Value(tlAlloc) {
+						marshal = x
+					}
+				}
+			}
+		})
+		if marshal == nil || len(tagStores) == 0 {
+			continue
+		}
+		n++
+		done[fn] = true
+		key := "order:" + kn(c.P.FuncName(fn))
+		// what is stored derives from the sorted value by truncation only
+		for _, st := range tagStores {
+			seen := map[ssa.Value]bool{}
+			var back func(v ssa.Value, d int)
+			back = func(v ssa.Value, d int) {
+				v = an.Strip(v)
+				if v == sorted || seen[v] || d > 12 {
+					return
+				}
+				seen[v] = true
+				switch x := v.(type) {
+				case *ssa.Slice:
+					back(x.X, d+1)
+				case *ssa.Phi:
+					for _, e := range x.Edges {
+						back(e, d+1)
+					}
+				default:
+					problems = append(problems, fmt.Sprintf("the tags stored at %s are not (a truncation of) the list sorted at %s", c.P.Pos(st.Pos()), c.P.Pos(sortCall.Pos())))
+				}
+			}
+			back(st.Val, 0)
+			if !sortCall.Block().Dominates(st.Block()) {
+				problems = append(problems, "the list is stored on a path that did not sort it")
+			}
+		}
+		// the sorted value was not truncated before the sort
+		{
+			seen := map[ssa.Value]bool{}
+			var back func(v ssa.Value, d int)
+			back = func(v ssa.Value, d int) {
+				v = an.Strip(v)
+				if seen[v] || d > 12 {
+					return
+				}
+				seen[v] = true
+				switch x := v.(type) {
+				case *ssa.Slice:
+					if x.High != nil {
+						problems = append(problems, fmt.Sprintf("the truncation at %s is not strictly after the sort: paging would cut an unsorted list", c.P.Pos(x.Pos())))
+					}
+					back(x.X, d+1)
+				case *ssa.Phi:
+					for _, e := range x.Edges {
+						back(e, d+1)
+					}
+				case *ssa.Call:
+					if bi, ok := x.Call.Value.(*ssa.Builtin); ok && bi.Name() == "append" && len(x.Call.Args) > 0 {
+						back(x.Call.Args[0], d+1)
+					}
+				}
+			}
+			back(sorted, 0)
+		}
+		if !sortCall.Block().Dominates(marshal.Block()) {
+			problems = append(problems, "the list is marshalled on a path that did not sort it")
+		}
+		problems = dedupe(problems)
+		if len(problems) > 0 {
+			c.Fail(key, sortCall.Pos(), "%s", strings.Join(problems, "; "))
+		} else {
+			c.Pass(key, sortCall.Pos(), "fill → sort → truncate → store into the TagList → marshal")
 		}
 	}
 	if n == 0 {
@@ -899,7 +1017,13 @@ func triggerOf(c *core.Ctx, r *Roles, b *ssa.BasicBlock) string {
 			}
 			return "value"
 		}
-		return "cmp:" + d(x) + "~" + d(y)
+		dx, dy := d(x), d(y)
+		// a comparison of which neither side can be named (a local counter against a constant) is no class of its
+		// own: unrelated conditions would fall into it
+		if (dx == "value" || dx == "const" || dx == "?") && (dy == "value" || dy == "const" || dy == "?") {
+			return ""
+		}
+		return "cmp:" + dx + "~" + dy
 	}
 	return ""
 }
@@ -1001,10 +1125,25 @@ func runPageCounter(c *core.Ctx, r *Roles) {
 				if len(args) == 0 {
 					return
 				}
-				for _, vals := range keyFields(args[0]) {
+				kf := keyFields(args[0])
+				for _, vals := range kf {
 					for _, v := range vals {
 						if strings.HasSuffix(v.Type().String(), "go-digest.Digest") {
 							respDig = v
+						}
+					}
+				}
+				if len(kf) == 0 {
+					// a key that is not a struct (a string put together by a function of the package): the digest it is
+					// made from is the digest-typed argument of that function — whether the key keeps its components
+					// apart is PV-CACHEKEY's question, not this clause's
+					if kc, _ := an.CallOf(an.Origin(args[0])); kc != nil {
+						if sc := kc.Call.StaticCallee(); sc != nil && core.FuncPkgPath(sc) == core.FuncPkgPath(fn) {
+							for _, a := range kc.Call.Args {
+								if strings.HasSuffix(a.Type().String(), "go-digest.Digest") {
+									respDig = a
+								}
+							}
 						}
 					}
 				}
